@@ -277,7 +277,7 @@ impl Prop for C09 {
         500
     }
     fn cases(&self, tier: Tier) -> u32 {
-        tier.pick(30_000, 800_000)
+        tier.pick(300_000, 5_000_000)
     }
     fn decode(&self, choices: &[u32], _tier: Tier) -> Value {
         let mut ch = Choices::new(choices);
